@@ -913,10 +913,12 @@ def add_option_post(c):
     o = c.arg('option')
     m0, m1 = c.oldv('options'), c.newv('options')
     name, value = _name_value(o)
+    name = F.lower_s(name)               # sshd(8): option keywords are case-insensitive (stored in lower case)
     hv = from_z3(handler_of(name), 'opt[opaque:Handler]')
     evs = c.events('handler')
     has_eq = z3.Contains(o, EQ)
-    flag = z3.And(m1.dom == z3.Store(m0.dom, o, True), m1.val == z3.Store(m0.val, o, P.py_bool(z3.BoolVal(True))))
+    flag = z3.And(m1.dom == z3.Store(m0.dom, F.lower_s(o), True),
+                  m1.val == z3.Store(m0.val, F.lower_s(o), P.py_bool(z3.BoolVal(True))))
     old = z3.If(z3.Select(m0.dom, name), P.py_l(z3.Select(m0.val, name)), z3.Empty(SSTR))
     accum = z3.And(m1.dom == z3.Store(m0.dom, name, True),
                    m1.val == z3.Store(m0.val, name, P.py_strlist(z3.Concat(old, z3.Unit(value)))))
@@ -935,6 +937,7 @@ def _flag_then_value(c):
     P = pyobj_sort()
     o = c.arg('option')
     name, _value = _name_value(o)
+    name = F.lower_s(name)
     m0 = c.oldv('options')
     hv = from_z3(handler_of(name), 'opt[opaque:Handler]')
     return z3.And(z3.Contains(o, EQ), hv.isnone, z3.Select(m0.dom, name),
@@ -1020,7 +1023,7 @@ def kh_load_lemmas(c):
 def kh_load_malformed(c):
     """the line being read is neither blank/comment nor 'hosts key' / '@marker hosts key' with a known marker"""
     i = c.new_state.env['__loop_i__'].z
-    lines = F.splitlines(c.arg('known_hosts'))
+    lines = F.nl_lines(c.arg('known_hosts'))
     d = F.kh_line(lines[i], X509)
     return z3.And(i >= 0, i < z3.Length(lines), z3.Not(d['blank']),
                   z3.Or(z3.Not(d['fields_ok']), z3.Not(d['marker_ok'])))
@@ -1038,13 +1041,13 @@ kh_load = Spec(
                  'marker': 'opt[str]'},
     ensures=[('one-index-op-per-parsable-line(skip+routing)',
               lambda c: c.new('ghost_added') == z3.Concat(
-                  c.old('ghost_added'), F.kh_file(F.splitlines(c.arg('known_hosts')), X509))),
+                  c.old('ghost_added'), F.kh_file(F.nl_lines(c.arg('known_hosts')), X509))),
              # class invariant relied on by _match (its `assert subject is not None`): established here
              ('every-indexed-entry-has-a-key-certificate-or-subject',
-              lambda c: F.log_wf(F.kh_file(F.splitlines(c.arg('known_hosts')), X509))),
+              lambda c: F.log_wf(F.kh_file(F.nl_lines(c.arg('known_hosts')), X509))),
              ('no-malformed-line-or-unknown-marker-accepted',
-              lambda c: kh_lines_wellformed(F.splitlines(c.arg('known_hosts')),
-                                            z3.Length(F.splitlines(c.arg('known_hosts')))))],
+              lambda c: kh_lines_wellformed(F.nl_lines(c.arg('known_hosts')),
+                                            z3.Length(F.nl_lines(c.arg('known_hosts')))))],
     raises={'ValueError': lambda c: z3.Or(z3.BoolVal(len(c.events('hashed_field_malformed')) > 0),
                                           kh_load_malformed(c))})
 kh_load.no_replay = True
@@ -1087,7 +1090,7 @@ def ak_load_lemmas(c):
 
 
 def _ak_lines(c):
-    return F.splitlines(c.arg('authorized_keys'))
+    return F.nl_lines(c.arg('authorized_keys'))
 
 
 def ak_load_raises(c):
